@@ -8,6 +8,7 @@ import (
 	"strings"
 	"testing"
 
+	corev3 "github.com/envoyproxy/go-control-plane/envoy/config/core/v3"
 	endpoint "github.com/envoyproxy/go-control-plane/envoy/config/endpoint/v3"
 
 	meshconfig "istio.io/api/mesh/v1alpha1"
@@ -152,6 +153,31 @@ type ClaIn struct {
 	World                                  int
 	InIndex                                bool
 	Shards                                 []Shard
+	// locality load balancing (ClaLb cases): proxy locality/labels and the DestinationRule's localityLbSetting
+	PLoc    int
+	PLabels []lab
+	LB      *LBIn
+}
+
+type PrioLabel struct {
+	Key      int
+	Override int // 0 = none, else "=v<Override>"
+}
+type LBIn struct {
+	Failover [][2]int // from region -> to region
+	Prio     []PrioLabel
+}
+
+func gLB(ci ClaIn) string {
+	has := ci.LB != nil
+	var fo [][2]int
+	var pr []PrioLabel
+	if has {
+		fo, pr = ci.LB.Failover, ci.LB.Prio
+	}
+	return vlib.App("Build_lb_in", vlib.B(has), vlib.NI(ci.PLoc), gLabs(ci.PLabels),
+		vlib.ListOf(fo, func(f [2]int) string { return vlib.Pair(vlib.NI(f[0]), vlib.NI(f[1])) }),
+		vlib.ListOf(pr, func(p PrioLabel) string { return vlib.Pair(vlib.NI(p.Key), vlib.Opt(p.Override != 0, vlib.NI(p.Override))) }))
 }
 
 func gOD(od int) string {
@@ -219,7 +245,7 @@ func gMember(m memberObs) string {
 }
 
 // runCla drives the real builder; returns the observed groups as a Gallina term and counters.
-func runCla(ci ClaIn, w world) (obs string, served int, shardsInOrder []Shard) {
+func runCla(ci ClaIn, w world, withPrio bool) (obs string, served int, shardsInOrder []Shard) {
 	features.DefaultSendUnhealthyEndpoints.Store(ci.DefaultUnh)
 	defer features.DefaultSendUnhealthyEndpoints.Store(true)
 	hostname := hostGlobal
@@ -252,6 +278,23 @@ func runCla(ci ClaIn, w world) (obs string, served int, shardsInOrder []Shard) {
 		spec := &networking.DestinationRule{Host: hostname}
 		if ci.DR.OD != 0 {
 			spec.TrafficPolicy = &networking.TrafficPolicy{OutlierDetection: realOD(ci.DR.OD)}
+		}
+		if ci.LB != nil {
+			if spec.TrafficPolicy == nil {
+				spec.TrafficPolicy = &networking.TrafficPolicy{}
+			}
+			ll := &networking.LocalityLoadBalancerSetting{}
+			for _, f := range ci.LB.Failover {
+				ll.Failover = append(ll.Failover, &networking.LocalityLoadBalancerSetting_Failover{From: "r" + strconv.Itoa(f[0]), To: "r" + strconv.Itoa(f[1])})
+			}
+			for _, p := range ci.LB.Prio {
+				l := "k" + strconv.Itoa(p.Key)
+				if p.Override != 0 {
+					l += "=v" + strconv.Itoa(p.Override)
+				}
+				ll.FailoverPriority = append(ll.FailoverPriority, l)
+			}
+			spec.TrafficPolicy.LoadBalancer = &networking.LoadBalancerSettings{LocalityLbSetting: ll}
 		}
 		for _, s := range ci.DR.Subsets {
 			ss := &networking.Subset{Name: "sub" + strconv.Itoa(s.Name), Labels: realLabels(s.Labels)}
@@ -294,6 +337,11 @@ func runCla(ci ClaIn, w world) (obs string, served int, shardsInOrder []Shard) {
 			proxy.Metadata.RequestedNetworkView = append(proxy.Metadata.RequestedNetworkView, "n"+strconv.Itoa(n))
 		}
 	}
+	proxy.Locality = &corev3.Locality{}
+	if ci.PLoc != 0 {
+		proxy.Locality = &corev3.Locality{Region: "r" + strconv.Itoa(ci.PLoc/100), Zone: "z" + strconv.Itoa((ci.PLoc/10)%10), SubZone: "s" + strconv.Itoa(ci.PLoc%10)}
+	}
+	proxy.Labels = realLabels(ci.PLabels)
 	proxy.SetSidecarScope(w.push)
 	subsetName := istr("sub", ci.Subset)
 	cn := model.BuildSubsetKey(model.TrafficDirectionOutbound, subsetName, host.Name(hostname), ci.Port)
@@ -306,7 +354,7 @@ func runCla(ci ClaIn, w world) (obs string, served int, shardsInOrder []Shard) {
 	for _, l := range cla.Endpoints {
 		loc := 0
 		if l.Locality != nil && l.Locality.Region != "" {
-			loc = unstr("r", l.Locality.Region)
+			loc = unstr("r", l.Locality.Region)*100 + unstr("z", l.Locality.Zone)*10 + unstr("s", l.Locality.SubZone)
 		}
 		wt := "None"
 		if l.LoadBalancingWeight != nil {
@@ -317,7 +365,14 @@ func runCla(ci ClaIn, w world) (obs string, served int, shardsInOrder []Shard) {
 			ms = append(ms, observeMember(le))
 			served++
 		}
-		groups = append(groups, vlib.Pair(vlib.Pair(vlib.NI(loc), wt), vlib.ListOf(ms, gMember)))
+		if withPrio {
+			groups = append(groups, vlib.Pair(vlib.Pair(vlib.Pair(vlib.NI(loc), vlib.NI(int(l.Priority))), wt), vlib.ListOf(ms, gMember)))
+		} else {
+			if l.Priority != 0 {
+				panic("priority set without locality load balancing")
+			}
+			groups = append(groups, vlib.Pair(vlib.Pair(vlib.NI(loc), wt), vlib.ListOf(ms, gMember)))
+		}
 	}
 	return vlib.List(groups), served, shardsInOrder
 }
@@ -410,7 +465,7 @@ func genClaIn(r *vlib.Rand, nWorlds int) ClaIn {
 		for n := 1 + r.Intn(4); n > 0; n-- {
 			addr++
 			e := EP{Wl: 1 + r.Intn(2), Addr: addr, Port: 1, EPort: 8080 + r.Intn(2), Health: hHealthy, Weight: uint32(r.Intn(4)),
-				Net: r.Intn(4), Cluster: k.Cluster, Loc: r.Intn(4), TLS: !r.Chance(25), Node: 1 + r.Intn(2), SA: r.Intn(3)}
+				Net: r.Intn(4), Cluster: k.Cluster, Loc: vlib.Pick(r, locTable), TLS: !r.Chance(25), Node: 1 + r.Intn(2), SA: r.Intn(3)}
 			if r.Chance(20) {
 				e.Port = 2
 			}
@@ -459,8 +514,8 @@ func runMalformed(w world, multiNetworkRemote bool) (panicked bool, msg string, 
 	svc := &model.Service{Hostname: host.Name(hostname), Resolution: model.ClientSideLB,
 		Attributes: model.ServiceAttributes{Name: "svc", Namespace: "ns1", Labels: map[string]string{}},
 		Ports:      model.PortList{{Name: "p1", Port: 80, Protocol: protocol.HTTP}}}
-	good := EP{Wl: 1, Addr: 1, Port: 1, EPort: 8080, Net: 1, Cluster: 1, Loc: 1, TLS: true}.real()
-	bad := EP{Wl: 1, Addr: 2, Port: 1, EPort: 8080, Net: 1, Cluster: 1, Loc: 1, TLS: true}.real()
+	good := EP{Wl: 1, Addr: 1, Port: 1, EPort: 8080, Net: 1, Cluster: 1, Loc: 111, TLS: true}.real()
+	bad := EP{Wl: 1, Addr: 2, Port: 1, EPort: 8080, Net: 1, Cluster: 1, Loc: 111, TLS: true}.real()
 	bad.Addresses = nil
 	if multiNetworkRemote {
 		bad.Network = "n2"
@@ -505,8 +560,8 @@ func genCla(t *testing.T, c *vlib.Collector, seed uint64, id *int) {
 	}
 	genMalformed(c, worlds, id)
 	root := vlib.NewRand(seed ^ 0xc13c)
-	n := vlib.Scale(700, 20000)
-	emit := func(ci ClaIn, extra ...string) {
+	n := vlib.Scale(550, 20000)
+	emitAny := func(ci ClaIn, lbCase bool, extra ...string) {
 		*id++
 		if !c.Wanted(*id) {
 			return
@@ -515,7 +570,7 @@ func genCla(t *testing.T, c *vlib.Collector, seed uint64, id *int) {
 		var obs string
 		var served int
 		var shards []Shard
-		if pan, msg := vlib.Recover(func() { obs, served, shards = runCla(ci, w) }); pan {
+		if pan, msg := vlib.Recover(func() { obs, served, shards = runCla(ci, w, ci.LB != nil || lbCase) }); pan {
 			c.Violate(vlib.Violation{ID: *id, Kind: "panic", Detail: msg, Case: ci})
 			return
 		}
@@ -527,7 +582,11 @@ func genCla(t *testing.T, c *vlib.Collector, seed uint64, id *int) {
 				if wt == 0 {
 					wt = 1
 				}
-				sum += wt * uint64(w.scale)
+				sc := uint64(w.scale) // 0 when no gateway is configured (weights are not scaled then)
+				if sc == 0 {
+					sc = 1
+				}
+				sum += wt * sc
 			}
 		}
 		tags := append([]string{"cla", fmt.Sprintf("cla-world=%d", ci.World)}, extra...)
@@ -552,15 +611,41 @@ func genCla(t *testing.T, c *vlib.Collector, seed uint64, id *int) {
 		if sum >= 1<<32 {
 			tags = append(tags, "cla-weight-sum-over-2^32")
 		}
+		if lbCase {
+			tags[0] = "clalb"
+			if ci.LB == nil {
+				tags = append(tags, "clalb-no-setting")
+			} else {
+				if len(ci.LB.Prio) > 0 {
+					tags = append(tags, "clalb-failover-priority")
+					if len(ci.PLabels) == 0 {
+						tags = append(tags, "clalb-proxy-without-labels")
+					}
+				}
+				if len(ci.LB.Failover) > 0 {
+					tags = append(tags, "clalb-failover")
+				}
+				if sum >= 1<<32 && len(ci.LB.Prio) > 0 {
+					c.FindingOf[*id] = findingFPWrap
+				}
+			}
+			if strings.Contains(obs, ", 1%N)") || strings.Contains(obs, ", 2%N)") {
+				tags = append(tags, "clalb-more-than-one-priority")
+			}
+			c.Add(vlib.Case{ID: *id, Term: vlib.App("ClaLb", vlib.NI(*id), gClaIn(ci, w, shards), gLB(ci), obs), Tags: tags,
+				Trivial: !(served > 0 && ci.LB != nil), Sample: map[string]any{"kind": "clalb", "input": ci, "observed": obs}})
+			return
+		}
 		c.Add(vlib.Case{ID: *id, Term: vlib.App("Cla", vlib.NI(*id), gClaIn(ci, w, shards), obs), Tags: tags,
 			Trivial: !(served > 0 && served < total), Sample: map[string]any{"kind": "cla", "input": ci, "observed": obs}})
 	}
+	emit := func(ci ClaIn, extra ...string) { emitAny(ci, false, extra...) }
 	// former K12 (fixed in /repo c539934): two endpoints of weight 2^31 on a remote network behind one gateway;
 	// locality and gateway weights must saturate exactly like the single-network path
 	k12 := ClaIn{Found: true, Ports: [][2]int{{80, 1}}, Port: 80, DefaultUnh: true, PNet: 1, PCluster: 1, PNode: 1, World: 1, InIndex: true,
 		Shards: []Shard{{K: SKey{1, 2}, Eps: []EP{
-			{Wl: 1, Addr: 1, Port: 1, EPort: 8080, Weight: 1 << 31, Net: 2, Cluster: 2, Loc: 1, TLS: true, Node: 1},
-			{Wl: 1, Addr: 2, Port: 1, EPort: 8080, Weight: 1 << 31, Net: 2, Cluster: 2, Loc: 1, TLS: true, Node: 1}}}}}
+			{Wl: 1, Addr: 1, Port: 1, EPort: 8080, Weight: 1 << 31, Net: 2, Cluster: 2, Loc: 111, TLS: true, Node: 1},
+			{Wl: 1, Addr: 2, Port: 1, EPort: 8080, Weight: 1 << 31, Net: 2, Cluster: 2, Loc: 111, TLS: true, Node: 1}}}}}
 	emit(k12, "scenario=k12-gateway")
 	k12b := k12
 	k12b.PNet = 2 // same network: both endpoints stay direct members, locality weight is re-summed by refreshWeight
@@ -572,4 +657,55 @@ func genCla(t *testing.T, c *vlib.Collector, seed uint64, id *int) {
 		r := root.Sub()
 		emit(genClaIn(r, len(worlds)))
 	}
+	// locality load balancing: the same inputs with a proxy locality/labels and a localityLbSetting
+	// (failover, failoverPriority) in the DestinationRule; ApplyToLoadAssignment runs on the real path
+	fpw := k12c
+	fpw.DR = &DRule{OD: 1}
+	fpw.LB = &LBIn{Prio: []PrioLabel{{Key: 1}}}
+	fpw.PLabels = []lab{{1, 1}}
+	fpw.PLoc = 111
+	emitAny(fpw, true, "scenario=failover-priority-heavy-weights")
+	nlb := vlib.Scale(300, 10000)
+	for i := 0; i < nlb; i++ {
+		r := root.Sub()
+		ci := genClaIn(r, len(worlds))
+		ci.Found, ci.DNS, ci.InIndex, ci.Port = true, false, true, 80
+		ci.PLoc = vlib.Pick(r, locTable)
+		for k := 1; k <= 2; k++ {
+			if r.Chance(70) {
+				ci.PLabels = append(ci.PLabels, lab{k, 1 + r.Intn(2)})
+			}
+		}
+		if r.Chance(85) {
+			if ci.DR == nil {
+				ci.DR = &DRule{}
+			}
+			if r.Chance(75) {
+				ci.DR.OD = 1 + r.Intn(2) // outlier detection enables failover
+			}
+			lb := &LBIn{}
+			if r.Chance(55) {
+				for n := 1 + r.Intn(2); n > 0; n-- {
+					lb.Failover = append(lb.Failover, [2]int{1 + r.Intn(2), 1 + r.Intn(2)})
+				}
+			}
+			if r.Chance(60) {
+				keys := []int{1, 2, 3}
+				if r.Bool() {
+					keys = []int{2, 1}
+				}
+				for _, k := range keys[:1+r.Intn(len(keys))] {
+					pl := PrioLabel{Key: k}
+					if r.Chance(25) {
+						pl.Override = 1 + r.Intn(2)
+					}
+					lb.Prio = append(lb.Prio, pl)
+				}
+			}
+			ci.LB = lb
+		}
+		emitAny(ci, true)
+	}
 }
+
+const findingFPWrap = "failover-priority-weight-wraps"
